@@ -156,7 +156,7 @@ def build(tier, rng):
     g_on = Group(
         "truncate-error-on",
         "TruncateMixin._check_truncate_policy",
-        f"{sorted(trunc)} x truncate_error on via using()/CryptContext(truncate_error=True)/CryptContext(scheme__truncate_error=True)/class default (cisco)"
+        f"{sorted(trunc)} x truncate_error on via using()/CryptContext(truncate_error=True)/CryptContext(scheme__truncate_error=True)/update() or copy() over a context that said off/class default (cisco)"
         " x byte lengths L-1, L, L+1 (thorough: L+2, L+3), k*L and ceil((L+1)/k) chars, k in 1..4 byte chars, pad front/back, str and bytes; lmhash x cp437/utf-8/latin-1/cp850:"
         " over the limit -> PasswordTruncateError (cisco: PasswordSizeError) or whole password used; at/below the limit -> accepted, verifies, extensions inside the limit do not",
     )
@@ -213,6 +213,14 @@ def build(tier, rng):
             yield "context-wide", "-ctx", (lambda s, **kw: c1.hash(s, **kw)), (lambda s, hs, **kw: c1.verify(s, hs, **kw))
             c2 = CryptContext(schemes=[name], **{f"{name}__truncate_error": True}, **rounds_kw)
             yield "context-scheme", "-ctx", (lambda s, **kw: c2.hash(s, **kw)), (lambda s, hs, **kw: c2.verify(s, hs, **kw))
+            # the policy switched on AFTER construction, over a context that said "off" explicitly
+            c3 = CryptContext(schemes=[name], truncate_error=False, **rounds_kw)
+            c3.update(truncate_error=True)
+            yield "context-updated", "-ctx-upd", (lambda s, **kw: c3.hash(s, **kw)), (lambda s, hs, **kw: c3.verify(s, hs, **kw))
+            c4 = CryptContext(schemes=[name], truncate_error=False, **rounds_kw).copy(truncate_error=True)
+            yield "context-copied", "-ctx-upd", (lambda s, **kw: c4.hash(s, **kw)), (lambda s, hs, **kw: c4.verify(s, hs, **kw))
+            c5 = CryptContext(schemes=[name], **{f"{name}__truncate_error": False}, **rounds_kw).copy(**{f"{name}__truncate_error": True})
+            yield "context-scheme-copied", "-ctx-upd", (lambda s, **kw: c5.hash(s, **kw)), (lambda s, hs, **kw: c5.verify(s, hs, **kw))
 
         def modes_off():
             yield "default", "", (lambda s, **kw: hc.hash(s, **kw)), (lambda s, hs, **kw: hc.verify(s, hs, **kw))
@@ -222,6 +230,11 @@ def build(tier, rng):
             yield "context-default", "-ctx", (lambda s, **kw: c1.hash(s, **kw)), (lambda s, hs, **kw: c1.verify(s, hs, **kw))
             c2 = CryptContext(schemes=[name], truncate_error=False, **rounds_kw)
             yield "context-wide", "-ctx", (lambda s, **kw: c2.hash(s, **kw)), (lambda s, hs, **kw: c2.verify(s, hs, **kw))
+            c3 = CryptContext(schemes=[name], truncate_error=True, **rounds_kw)
+            c3.update(truncate_error=False)
+            yield "context-updated", "-ctx-upd", (lambda s, **kw: c3.hash(s, **kw)), (lambda s, hs, **kw: c3.verify(s, hs, **kw))
+            c4 = CryptContext(schemes=[name], truncate_error=True, **rounds_kw).copy(truncate_error=False)
+            yield "context-copied", "-ctx-upd", (lambda s, **kw: c4.hash(s, **kw)), (lambda s, hs, **kw: c4.verify(s, hs, **kw))
 
         for enc in encs:
             kw = dict(ck)
